@@ -713,9 +713,9 @@ open Litep2pVerif Litep2pVerif.Node
 /-- A configuration with every kind of protocol (used by the non-vacuity examples). -/
 def sample : Config :=
   { keepAliveMs := some 600, limits := some (some 2, none), listen := [1, 2],
-    notif := [⟨"/n/a", 1024, "0102", ["/n/old"], 'a'⟩],
+    notif := [⟨"/n/a", 1024, "0102", ["/n/old"], 'a', some 64, some 64, none⟩],
     rr := [⟨"/r/a", 256, 800, ["/r/old"], none⟩, ⟨"/r/b", 64, 800, [], some 1⟩],
-    user := [⟨"/u/a", .varint none⟩], kad := [⟨[], none⟩], ping := some 1, identify := true, bitswap := true,
+    user := [⟨"/u/a", .varint none⟩], kad := [⟨[], none, []⟩], ping := some 1, identify := true, bitswap := true,
     known := some [(0, [.listen 0, .closed, .quic, .wrongPeer 0, .noPeer 0])] }
 
 /-- Every configured notification protocol is registered under its own name with its OWN codec and maximum notification
@@ -735,6 +735,17 @@ example : ∃ w, Node.new sample = .ok w ∧
     (w.regs.filter (fun r => r.name = "/n/a")).map (fun r => (r.codec, r.fallback)) = [(.varint (some 1024), ["/n/old"])] :=
   ⟨_, rfl, by decide⟩
 
+/-- Every configured notification protocol object is constructed with its OWN channel sizes (the crate defaults when the
+setters were not called), auto-accept and dialing switches and handshake bytes. -/
+theorem notification_config_reaches_protocol (c : Config) :
+    ∀ p ∈ (build c).notif,
+      Note.notif p.name (p.sync.getD Consts.NODE_NOTIF_SYNC_CHANNEL_SIZE) (p.async.getD Consts.NODE_NOTIF_ASYNC_CHANNEL_SIZE)
+        (p.mode == 'a') (p.dial.getD true) p.handshake ∈ notes (build c) :=
+  fun _ hp => notes_notif_mem _ hp
+
+example : Note.notif "/n/a" 64 64 true true "0102" ∈ notes (build sample) := by decide
+
 end Litep2pVerif.Props.C11.Wiring
 
 #print axioms Litep2pVerif.Props.C11.Wiring.notification_registered_with_own_codec_and_size
+#print axioms Litep2pVerif.Props.C11.Wiring.notification_config_reaches_protocol
